@@ -47,7 +47,10 @@ type Outcome struct {
 var swapMu sync.Mutex
 
 // WithSwap runs f with the library's streams captured and a non-returning exit stub.
-func WithSwap(out *Outcome, f func()) {
+func WithSwap(out *Outcome, f func()) { WithSwapExit(out, nil, f) }
+
+// WithSwapExit is WithSwap with a callback invoked when the exit stub is called.
+func WithSwapExit(out *Outcome, onExit func(int), f func()) {
 	swapMu.Lock()
 	defer swapMu.Unlock()
 	var buf bytes.Buffer
@@ -55,6 +58,9 @@ func WithSwap(out *Outcome, f func()) {
 		cc := c
 		out.Exit = &cc
 		out.Exits++
+		if onExit != nil {
+			onExit(c)
+		}
 		panic(ExitSentinel{c})
 	})
 	defer func() {
